@@ -16,6 +16,16 @@ func (vc *FuncVC) execBlock(b *ssa.BasicBlock) {
 		case *ssa.Phi:
 			// handled on block entry
 		case *ssa.DebugRef:
+			if !ins.IsAddr && ins.Object() != nil {
+				if v, ok := vc.vals[ins.X]; ok && v.Kind == vScalar {
+					vc.debugVals[ins.Object().Name()] = vc.toSVal(v, ins.X.Type())
+				} else if c, ok := ins.X.(*ssa.Const); ok {
+					cv := vc.constVal(c)
+					if cv.Kind == vScalar {
+						vc.debugVals[ins.Object().Name()] = vc.toSVal(cv, ins.X.Type())
+					}
+				}
+			}
 			if la := vc.fc.LocalAssume; la != nil && !ins.IsAddr && ins.Object() != nil {
 				if cl := la[ins.Object().Name()]; cl != nil && !vc.localDone[ins.Object().Name()] {
 					if v, ok := vc.vals[ins.X]; ok && v.Kind == vScalar {
@@ -129,6 +139,11 @@ func (vc *FuncVC) execAlloc(st *State, ins *ssa.Alloc) {
 	}
 	vc.nonnil[ins] = true
 	vc.vals[ins] = vc.ptrVal(a, ins.Type())
+	if ins.Comment != "" {
+		if _, dup := vc.allocs[ins.Comment]; !dup {
+			vc.allocs[ins.Comment] = vc.vals[ins]
+		}
+	}
 }
 
 func (vc *FuncVC) nilCheck(reach Term, p ssa.Value, what string, pos token.Pos) {
